@@ -60,8 +60,10 @@ func (s *kvSession) open(prefix []byte) {
 	s.bs = []*kvBackend{
 		{name: "mem", db: idb.NewMemDB()},
 		{name: "ldb", db: l1, dir: d1},
-		{name: "pm", db: idb.NewPrefixDB(m2, prefix), under: m2, prefix: prefix},
-		{name: "pl", db: idb.NewPrefixDB(l2, prefix), under: l2, prefix: prefix, dir: d2},
+		// the prefix handed to NewPrefixDB has spare capacity, as a caller's `append(buf[:0], ...)` would give:
+		// a wrapper that builds keys with append(prefix, key...) must not write into it
+		{name: "pm", db: idb.NewPrefixDB(m2, append(make([]byte, 0, 64), prefix...)), under: m2, prefix: prefix},
+		{name: "pl", db: idb.NewPrefixDB(l2, append(make([]byte, 0, 64), prefix...)), under: l2, prefix: prefix, dir: d2},
 	}
 	for _, b := range s.bs {
 		b.batches = map[string]corestore.Batch{}
